@@ -115,7 +115,9 @@ func c11CLattice(n int, q float64, masses []*big.Rat) []float64 {
 	}
 	if masses != nil {
 		for _, c := range c11GreedyCums(masses, n, q) {
-			for _, v := range []float64{c, math.Nextafter(c, 0), math.Nextafter(c, 2)} {
+			// exactly, one ulp either side, and clearly above/below it (beyond the 1e-12 slack
+			// granted to "Confidence >= c", within the 1e-9 of a would-be tolerance)
+			for _, v := range []float64{c, math.Nextafter(c, 0), math.Nextafter(c, 2), c + 3e-12, c + 1e-10, c + 5e-10, c - 3e-12, c - 5e-10} {
 				if v > 0 && v < 1 {
 					cs = append(cs, v)
 				}
@@ -195,7 +197,16 @@ func c11Check(c *C11Case, r *core.Rec) {
 	if q > 0 && q < 1 {
 		r.NT()
 	}
-	for _, conf := range cs {
+	for ci, conf := range cs {
+		// history: calls for other sizes in between (a larger n on the exact path, then one
+		// on the normal path) must leave no trace
+		if ci%4 == 0 {
+			stats.QuantileCI(30, 0.5, 0.9)
+			if ci%8 == 0 {
+				stats.QuantileCI(64, 0.25, 0.99)
+			}
+			r.Trans(1)
+		}
 		res := stats.QuantileCI(n, q, conf)
 		r.Trans(1)
 		r.Outcome(uint64(res.LoOrder)<<32 | uint64(res.HiOrder)<<1 | b2u(res.Ambiguous))
@@ -393,12 +404,12 @@ func c11Run(c *core.Ctx) {
 	for k := 0; k <= 40; k++ {
 		qs = append(qs, float64(k)/40)
 	}
-	qs = append(qs, 1e-9, 1-1e-9)
+	qs = append(qs, 1e-9, 1-1e-9, 0.137, 1.0/3, 1.0/7, 0.618, 0.9137)
 	ns := []int{}
 	for n := 1; n <= 30; n++ {
 		ns = append(ns, n)
 	}
-	big := []int{31, 32, 50, 100, 101, 500, 2000}
+	big := []int{31, 32, 33, 37, 50, 100, 101, 129, 500, 2000}
 	if c.Thorough() {
 		big = append(big, 33, 64, 250, 999, 1000, 10000)
 		for k := 1; k < 80; k += 2 {
